@@ -181,16 +181,34 @@ Definition s_foot4 : list N := [10; 125; 32; 125; 10].                          
 
 (* [fixed] = the separator is written in front of every entry (44f79e4); false = the code as found: every
    metadata event is followed by a comma and the first function event has none in front *)
-Definition chrome_doc (fixed : bool) (comms : list (N * list N)) (evts : list cevt)
-                      (version date : list N) (cmdline : option (list N)) : list N :=
+Definition chrome_doc_texts (fixed : bool) (comms : list (N * list N)) (evs : list (list N))
+                            (version date : list N) (cmdline : option (list N)) : list N :=
   let metas := flat_map (fun tc => [meta_text true (fst tc) (snd tc); meta_text false (fst tc) (snd tc)]) comms in
-  let evs := map evt_text evts in
   s_head
   ++ (if fixed then join_sep (metas ++ evs)
       else flat_map (fun m => m ++ sep) metas ++ join_sep evs)
   ++ s_foot1 ++ version ++ s_foot2 ++ date
   ++ [34] ++ match cmdline with Some c => s_foot3 ++ escape_quoted (cstr c) ++ [34] | None => [] end
   ++ s_foot4.
+Definition chrome_doc (fixed : bool) (comms : list (N * list N)) (evts : list cevt)
+                      (version date : list N) (cmdline : option (list N)) : list N :=
+  chrome_doc_texts fixed comms (map evt_text evts) version date cmdline.
+
+(* a task renamed while it runs (perf COMM event; dump_chrome_perf_event after fix 30262fc): metadata events in the
+   middle of the list - two for a process, one for a thread *)
+Definition s_pname0 : list N := removelast s_pname.          (* ... 'args':{'name':'   without the bracket *)
+Definition s_tname0 : list N := removelast s_tname.
+Definition comm_text (pid tid : N) (comm : list N) : list N :=
+  let esc := escape_bounded 80 (cstr comm) in
+  if pid =? tid
+  then (s_m1 ++ dec tid ++ s_pname0 ++ esc ++ [34; 125; 125]) ++ sep ++ (s_m1 ++ dec tid ++ s_tname0 ++ esc ++ [34; 125; 125])
+  else s_m1 ++ dec pid ++ s_tid ++ dec tid ++ s_tname ++ dec tid ++ [93; 32] ++ esc ++ [34; 125; 125].
+Inductive ditem := DEvt (e : cevt) | DComm (pid tid : N) (comm : list N).
+Definition item_text (it : ditem) : list N :=
+  match it with DEvt e => evt_text e | DComm pid tid comm => comm_text pid tid comm end.
+Definition chrome_doc_items (fixed : bool) (comms : list (N * list N)) (items : list ditem)
+                            (version date : list N) (cmdline : option (list N)) : list N :=
+  chrome_doc_texts fixed comms (map item_text items) version date cmdline.
 
 (* the function records of a stream as events, then the closing events (cf. chrome_events) *)
 Definition mk_cevt (tasks : list (N * N)) (tid : N) (b : bool) (x : name) (t : N) (a : option (list argv)) : cevt :=
@@ -202,14 +220,31 @@ Fixpoint chrome_close_raw (tasks : list (N * N)) (tid last : N) (st : list frame
   | f :: rest => if last <? f_start f then chrome_close_raw tasks tid last rest
                  else mk_cevt tasks tid false (f_name f) last None :: chrome_close_raw tasks tid last rest
   end.
-Definition chrome_evts (tasks : list (N * N)) (s : stream) (args : list (option (list argv))) : list cevt :=
-  let m := fold_left (step 0) s (m_init []) in
+Definition chrome_rec_evts (tasks : list (N * N)) (s : stream) (args : list (option (list argv))) : list cevt :=
   map (fun ra : (N * ev) * option (list argv) =>
          let '((tid, e), a) := ra in
          match e with Ent x t => mk_cevt tasks tid true x t a | Ext x t => mk_cevt tasks tid false x t a end)
-      (combine s (args ++ repeat None (length s - length args)))
-  ++ flat_map (fun tp => let ts := t_get (fst tp) (m_t m) in
-                         chrome_close_raw tasks (fst tp) (ts_last ts) (ts_stack ts)) tasks.
+      (combine s (args ++ repeat None (length s - length args))).
+Definition chrome_close_evts (tasks : list (N * N)) (s : stream) : list cevt :=
+  let m := fold_left (step 0) s (m_init []) in
+  flat_map (fun tp => let ts := t_get (fst tp) (m_t m) in
+                      chrome_close_raw tasks (fst tp) (ts_last ts) (ts_stack ts)) tasks.
+Definition chrome_evts (tasks : list (N * N)) (s : stream) (args : list (option (list argv))) : list cevt :=
+  chrome_rec_evts tasks s args ++ chrome_close_evts tasks s.
+(* the renames (time, tid, new name) take their place among the records by time *)
+Fixpoint insert_comm (tm : N) (it : ditem) (l : list ditem) : list ditem :=
+  match l with
+  | [] => [it]
+  | DEvt e :: r => if tm <? e_time e then it :: l else DEvt e :: insert_comm tm it r
+  | c :: r => c :: insert_comm tm it r
+  end.
+Definition chrome_items (tasks : list (N * N)) (s : stream) (args : list (option (list argv)))
+                        (renames : list (N * N * list N)) : list ditem :=
+  fold_left (fun l r => let '(tm, tid, nm) := r in
+                        let pid := match find (fun p => fst p =? tid) tasks with Some (_, p) => p | None => tid end in
+                        insert_comm tm (DComm pid tid nm) l)
+            renames (map DEvt (chrome_rec_evts tasks s args))
+  ++ map DEvt (chrome_close_evts tasks s).
 
 (* ------------------------------------------------------------------------------------------ *)
 (* 3. one differential case for the whole document                                            *)
@@ -221,12 +256,13 @@ Record dcase := {
   d_date : list N;                      (* as found in the output (mtime of the info file) *)
   d_cmdline : option (list N);          (* the stored command line, None: not in the info mask *)
   d_noev : bool;                        (* run with a filter that removes every record *)
+  d_renames : list (N * N * list N);    (* perf COMM events: (time, tid, new name) in time order *)
   d_doc : list N                        (* stdout of the real uftrace dump --chrome *)
 }.
 Definition model_doc (d : dcase) : list N :=
   let k := d_case d in
-  chrome_doc true (d_comms d)
-             (if d_noev d then [] else chrome_evts (k_tasks k) (k_stream k) (k_args k))
+  chrome_doc_items true (d_comms d)
+             (if d_noev d then [] else chrome_items (k_tasks k) (k_cstream k) (k_args k) (d_renames d))
              (d_version d) (d_date d) (d_cmdline d).
 Definition agree_doc (d : dcase) : bool := bytes_eqb (model_doc d) (d_doc d).
 Definition okc_doc (d : dcase) : bool := json_ok (d_doc d).
